@@ -69,6 +69,12 @@ def _groups(fam, s):
     return s.split(":") if fam == "AF_LINK" else [s]
 
 
+def _s(x):
+    """A string answer as it is; anything else (None, bytes, ...) as a marked
+    string, so that the judge sees one type per slot."""
+    return x if isinstance(x, str) else "?%r" % (x,)
+
+
 def _intlike(x):
     if isinstance(x, bool) or not isinstance(x, (int, float)) or x != int(x):
         return -1
@@ -86,8 +92,8 @@ def query(w, ps, inp):
         if fam in MOUNT_FAMS:
             sim_x17.set_mounts(w, ps, inp)
             res = ps.disk_partitions(all=inp["all"])
-            return {"rows": [{"device": r.device, "mountpoint": sim_x17.RDIRS.get(r.mountpoint, r.mountpoint),
-                              "fstype": r.fstype, "opts": r.opts} for r in res]}
+            return {"rows": [{"device": _s(r.device), "mountpoint": _s(sim_x17.RDIRS.get(r.mountpoint, r.mountpoint)),
+                              "fstype": _s(r.fstype), "opts": _s(r.opts)} for r in res]}
         if fam == "stats":
             sim_x17.set_stats(w, ps, inp)
             try:
@@ -96,9 +102,10 @@ def query(w, ps, inp):
                 return {"raises": True, "errno": e.errno if isinstance(e.errno, int) else -1, "nics": []}
             dup = {ps.NIC_DUPLEX_FULL: "full", ps.NIC_DUPLEX_HALF: "half", ps.NIC_DUPLEX_UNKNOWN: "unknown"}
             return {"raises": False, "errno": 0,
-                    "nics": [{"name": n, "isup": s.isup if isinstance(s.isup, bool) else "?%r" % (s.isup,),
+                    "nics": [{"name": _s(n), "isup": {True: "true", False: "false"}[s.isup] if isinstance(s.isup, bool) else "?%r" % (s.isup,),
                               "duplex": dup.get(s.duplex, "?%r" % (s.duplex,)), "speed": _intlike(s.speed),
-                              "mtu": _intlike(s.mtu), "flags": [f for f in s.flags.split(",") if f]}
+                              "mtu": _intlike(s.mtu),
+                              "flags": [f for f in s.flags.split(",") if f] if isinstance(s.flags, str) else ["?%r" % (s.flags,)]}
                              for n, s in res.items()]}
         if fam == "addrs":
             sim_x17.set_addrs(w, ps, inp)
@@ -110,14 +117,14 @@ def query(w, ps, inp):
                     f = _fam_name(ps, a.family)
                     rr.append({"family": f, "address": _groups(f, a.address), "netmask": _groups(f, a.netmask),
                                "broadcast": _groups(f, a.broadcast), "ptp": _groups(f, a.ptp)})
-                out.append({"name": n, "rows": rr})
+                out.append({"name": _s(n), "rows": rr})
             return {"nics": out}
         if fam == "users":
             sim_x17.set_users(w, ps, inp)
             res = ps.users()
-            return {"rows": [{"name": u.name, "terminal": "None" if u.terminal is None else u.terminal,
-                              "host": "" if u.host is None else u.host, "started": _intlike(u.started),
-                              "pid": u.pid} for u in res]}
+            return {"rows": [{"name": _s(u.name), "terminal": "None" if u.terminal is None else _s(u.terminal),
+                              "host": "" if u.host is None else _s(u.host), "started": _intlike(u.started),
+                              "pid": _intlike(u.pid)} for u in res]}
         raise core.Machinery("unknown family %r" % fam)
     finally:
         ps.PROCFS_PATH = "/proc"
@@ -151,8 +158,8 @@ def compare(inp, got, out):
                 tag = "rootfs-device" if any(e["dev"] in ("/dev/root", "rootfs") for e in inp["ents"]) else "device"
             else:
                 tag = "fields"
-            if fam == "mtab" and any(r["device"] == "/dev/decoy" for r in got["rows"]):
-                tag = "table-choice"
+            if any(r["device"] == "/dev/decoy" for r in got["rows"]):
+                tag = "table-choice"          # the caller's own table instead of PROCFS_PATH's
             bad.append((tag, "disk_partitions(all=%s) -> %r, specification: %r" % (inp["all"], got["rows"], exp)))
     elif fam == "stats":
         if out["raises"]:
@@ -172,7 +179,8 @@ def compare(inp, got, out):
                 bad.append(("names", "net_if_stats() lists %r, specification: %r" % (sorted(g), sorted(exp))))
             for n in sorted(set(g) & set(exp)):
                 for k in ("isup", "duplex", "speed", "mtu"):
-                    if g[n][k] != exp[n][k]:
+                    e = {True: "true", False: "false"}[exp[n][k]] if k == "isup" else exp[n][k]
+                    if g[n][k] != e:
                         bad.append((k, "net_if_stats()[%r].%s = %r, specification: %r (flags %r)"
                                     % (n, k, g[n][k], exp[n][k], exp[n]["flags"])))
                 if sorted(g[n]["flags"]) != sorted(exp[n]["flags"]):
@@ -459,6 +467,154 @@ def _vacuity(evs):
     return {k: len(v) for k, v in fams.items()}
 
 
+# ---------------------------------------------------------------------------
+# calibration of the trusted base against the live kernel / the real extension
+# ---------------------------------------------------------------------------
+
+def _calib(_):
+    """Forked: facts about the live kernel and the REAL extension functions the
+    simulation stands in for.  Returns {check: (ok, detail)}; a check that cannot
+    be performed is reported as None."""
+    import re
+    import tempfile
+    w, ps = template()
+    from psutil import _pslinux
+    rc, rp = _pslinux.cext._real, _pslinux.cext_posix._real
+    res = {}
+    # getmntent emulation == glibc's getmntent on a rendered table with every escape
+    ents = [("none", "/mnt/a b", "tmpfs", "rw,relatime"), ("/dev/my disk", "/mnt/t\tb", "ext4", "ro"),
+            ("/dev/root", "/", "ext4", "rw"), ("pool/data", "/mnt/b\\s", "zfs", "rw,xattr"), ("rootfs", "/mnt/n\nl", "rootfs", "rw")]
+    data = sim_x17.render_mounts(ents)
+    with tempfile.NamedTemporaryFile(dir="/dev/shm" if os.path.isdir("/dev/shm") else None) as f:
+        f.write(data)
+        f.flush()
+        real = [tuple(x) for x in rc.disk_partitions(f.name)]
+    res["getmntent(rendered table)"] = (real == ents and sim_x17.parse_mounts(data) == ents, "real %r / emulated %r / entries %r"
+                                        % (real, sim_x17.parse_mounts(data), ents))
+    try:
+        live = open("/proc/self/mounts", "rb").read()
+        real = [tuple(x) for x in rc.disk_partitions("/proc/self/mounts")]
+        if open("/proc/self/mounts", "rb").read() == live:
+            res["getmntent(live /proc/self/mounts)"] = (real == sim_x17.parse_mounts(live), "real %r / emulated %r"
+                                                        % (real[:4], sim_x17.parse_mounts(live)[:4]))
+    except OSError:
+        res["getmntent(live /proc/self/mounts)"] = None
+    try:
+        fs = open("/proc/filesystems").read().splitlines()
+        res["/proc/filesystems line format"] = (bool(fs) and all(re.fullmatch(r"(nodev)?\t\S+", l) for l in fs), repr(fs[:3]))
+    except OSError:
+        res["/proc/filesystems line format"] = None
+    try:
+        pl = open("/proc/partitions").read().split("\n")
+        body = [l for l in pl[2:] if l]
+        res["/proc/partitions format"] = (pl[0].split() == ["major", "minor", "#blocks", "name"] and pl[1] == ""
+                                          and all(len(l.split()) == 4 for l in body), repr(pl[:3]))
+        if body:
+            ma, mi, _, name = body[0].split()
+            try:
+                ue = open("/sys/dev/block/%s:%s/uevent" % (ma, mi)).read()
+                res["uevent DEVNAME"] = ("DEVNAME=%s\n" % name in ue, ue)
+            except OSError:
+                res["uevent DEVNAME"] = None
+            try:
+                res["/sys/class/block/<name>/dev"] = (open("/sys/class/block/%s/dev" % name.replace("/", "!")).read()
+                                                      == "%s:%s\n" % (ma, mi), name)
+            except OSError:
+                res["/sys/class/block/<name>/dev"] = None
+    except OSError:
+        res["/proc/partitions format"] = None
+    res["ethtool duplex codes"] = ((rc.DUPLEX_HALF, rc.DUPLEX_FULL, rc.DUPLEX_UNKNOWN) == (0, 1, 255),
+                                   repr((rc.DUPLEX_HALF, rc.DUPLEX_FULL, rc.DUPLEX_UNKNOWN)))
+    try:
+        rp.net_if_mtu("x17nonexist")
+        res["unknown interface -> ENODEV"] = (False, "no error")
+    except OSError as e:
+        res["unknown interface -> ENODEV"] = (e.errno == 19, repr(e))
+    try:
+        rows = rp.net_if_addrs()
+        lo = [r for r in rows if r[0] == "lo" and r[1] == 17]
+        shape = all(isinstance(r, tuple) and len(r) == 6 and isinstance(r[1], int) and isinstance(r[2], str) for r in rows)
+        res["raw address rows"] = (shape and (not lo or (lo[0][2] == "00:00:00:00:00:00" and lo[0][3] is None)), repr(rows[:3]))
+        fl = rp.net_if_flags("lo")
+        res["raw flags"] = (isinstance(fl, list) and {"up", "loopback", "running"} <= set(fl), repr(fl))
+        ds = rc.net_if_duplex_speed("lo")
+        res["raw duplex/speed"] = (isinstance(ds, (tuple, list)) and len(ds) == 2 and ds[0] in (0, 1, 255), repr(ds))
+    except OSError as e:
+        res["raw address rows"] = None
+    return res
+
+
+def calibrate(ctx):
+    st, res = forkpool.fork_call(_calib, None, timeout=120)
+    if st != "ok":
+        raise core.Machinery("X17 calibration worker failed: %s" % (res,))
+    bad = {k: v[1] for k, v in res.items() if v is not None and not v[0]}
+    if bad:
+        raise core.Machinery("X17: the simulated tables disagree with the live kernel / real extension: %r" % bad)
+    skipped = sorted(k for k, v in res.items() if v is None)
+    ctx.cov.setdefault("x17", {})["calibration"] = {"checked": sorted(k for k, v in res.items() if v is not None),
+                                                    "skipped": skipped}
+    if skipped:
+        ctx.notes.append("X17 calibration skipped (not available on this host): %s" % ", ".join(skipped))
+
+
+# inputs beyond what the statement binds: recorded in evidence, never a verdict
+OBSERVATIONS = [
+    ("root device with a '/' in its name (cciss/c0d0p1) known to /sys/class/block only",
+     {"fam": "rootfs", "ents": [{"dev": "/dev/root", "dir": "D_ROOT", "type": "ext4", "opts": "rw"}],
+      "fst": [{"type": "ext4", "nodev": False}], "all": True,
+      "root": {"dev": [104, 1], "path": "/dev/cciss!c0d0p1", "parts": "absent", "uevent": "absent", "cls": "match", "node": False},
+      "mtab": "link", "procfs": "/proc"}),
+    ("an address family outside AF_INET/AF_INET6/AF_PACKET",
+     {"fam": "addrs", "rows": [{"name": "eth0", "fam": 99, "addr": ["x"], "mask": [], "bcast": [], "ptp": []}]}),
+]
+
+
+def _observe(_):
+    w, ps = template()
+    out = []
+    for what, inp in OBSERVATIONS:
+        try:
+            out.append({"what": what, "answer": query(w, ps, inp)})
+        except Exception as ex:  # noqa: BLE001
+            out.append({"what": what, "answer": "raised %r" % (ex,)})
+    return out
+
+
+def replay(ctx, data):
+    """--replay: re-run one recorded input through the code and let TLC judge it."""
+    rp = data["replay"]
+    inp = (rp.get("case") or rp)["inp"]
+    st, line = forkpool.fork_call(rand_one, inp, timeout=120)
+    if st != "ok":
+        raise core.Machinery("replay worker failed: %s" % (line,))
+    print("  code answers now: %r" % (line.get("got", line.get("error")),))
+    if "error" in line:
+        return True
+    d = tlc.scratch()
+    try:
+        tf = os.path.join(d, "trace.ndjson")
+        open(tf, "w").write(json.dumps(line) + "\n")
+        cfg = os.path.join(d, "t.cfg")
+        c = consts(False)
+        c["Families"] = set()
+        tlc.write_cfg(cfg, c, init="TInit", next_="TNext", invariants=["Match"])
+        r = tlc.run("SysTablesTrace", cfg, workers=1, env={"TRACE_FILE": tf}, timeout=300)
+    finally:
+        shutil.rmtree(d, ignore_errors=True)
+    if r.error or r.violated:
+        raise core.Machinery("replay: TLC failed: %s" % (r.error or r.violated))
+    return bool(tlc.tagged(r, "REJECTED"))
+
+
+def rand_one(inp):
+    w, ps = template()
+    try:
+        return {"inp": inp, "got": query(w, ps, inp)}
+    except Exception as ex:  # noqa: BLE001
+        return {"inp": inp, "error": repr(ex)}
+
+
 def warm(ctx):
     for th in (False, True):
         rd = tlc.dump_cached("SysTables", consts(th), view=None)
@@ -468,6 +624,7 @@ def warm(ctx):
 def check_extra(ctx, thorough):
     forkpool.start(16, init=template)
     ctx.assumptions += ASSUMPTIONS
+    calibrate(ctx)
     c = consts(thorough)
     evs = functional.observe(ctx, "SysTables", "x17-systables", c, invariants=INVS)
     evs = [e for e in evs if e.get("op") == "observe"]
@@ -488,7 +645,9 @@ def check_extra(ctx, thorough):
     before = len(ctx.violations) + sum(ctx.known_hits.values())
     functional.run_cases(ctx, "x17-enumerated-tables", evs, run_chunk, sig_fn)
     ctx.cov["x17"]["enumerated_disagreements"] = len(ctx.violations) + sum(ctx.known_hits.values()) - before
-    trace_validate(ctx, 20000 if thorough else 3000)
+    trace_validate(ctx, 20000 if thorough else 5000)
+    st, obs = forkpool.fork_call(_observe, None, timeout=120)
+    ctx.cov["x17"]["observations_outside_the_statement"] = obs if st == "ok" else "not run: %s" % (obs,)
 
 
 def check(ctx):
